@@ -525,6 +525,17 @@ def r_labelfields(prog, tier):
         plain = [d for d in contrib if isinstance(d[1], ast.AST) and nm2 not in [x.id for x in ast.walk(d[1]) if isinstance(x, ast.Name)]]
         # a plain assignment that can follow another contribution throws that contribution away
         bad = [d for d in plain if any(o[0] != d[0] and d[0] in cfg.reach(o[0]) for o in contrib)]
+        # ... in the order parse_label takes them off from the right: co-index last, so the gap index is added first
+        gap_c = [d for d in contrib if 'gapindex' in unparse(d[1][1] if isinstance(d[1], tuple) else d[1])]
+        co_c = [d for d in contrib if 'coindex' in unparse(d[1][1] if isinstance(d[1], tuple) else d[1])]
+        if len(gap_c) == 1 and len(co_c) == 1 and gap_c[0][0] != co_c[0][0] and all(isinstance(d[1], tuple) and d[1][0] == 'aug'
+                                                                                    for d in (gap_c[0], co_c[0])):
+            g_, c_ = gap_c[0][0], co_c[0][0]
+            wrong_order = g_ in cfg.reach(c_) and c_ not in cfg.reach(g_)
+            obs.append(Ob('R-LABELFIELDS', 'trees.format_label', 'the gap index is written before the co-index', not wrong_order,
+                          'gap index added first, co-index after it' if not wrong_order else
+                          'the co-index is added to `%s` before the gap index: `NP=1-2` comes back as `NP-2=1`, which parse_label '
+                          'reads differently' % nm2, construct='index-order:' + nm2, line=ff.node.lineno, nontrivial=False))
         obs.append(Ob('R-LABELFIELDS', 'trees.format_label', 'gap index and co-index are both kept in `%s`' % nm2,
                       False if bad else True,
                       '`%s = %s` replaces what was collected before it: a label with gap index and co-index loses one of them'
